@@ -59,7 +59,26 @@ pub fn c03(tier: &str, seed: u64, meta: &str) -> Report {
     let n_a = n_pairs * words.len() as u64;
     let n_a2: u64 = if thorough { 60_000 } else { 6_000 };
     let n_b: u64 = if thorough { 200_000 } else { 16_000 };
-    let total = n_a + n_a2 + n_b + if thorough { 1 } else { 0 };
+    // spellings (values of autocorrect.json) whose transliteration holds a zero-width joiner / non-joiner: the dictionary
+    // lists some of these words in the other invisible spelling, which then sits beside the transliteration
+    let joiner_spellings: Vec<String> = {
+        let mut w0 = Worker2::new(pr.data.clone());
+        let mut v: Vec<String> = pr.data.autocorrect.values().filter(|v| v.is_ascii() && pr.typeable(v) && !v.is_empty()).cloned().collect();
+        v.sort(); v.dedup();
+        let mut v: Vec<String> = v.into_iter().filter(|x| { let c = w0.oracle.conv(x); c.contains('\u{200C}') || c.contains('\u{200D}') }).collect();
+        // and, for every dictionary word that holds a joiner, a spelling of its twin with the other joiner (found by search)
+        let mut twins: Vec<&String> = pr.data.dict.values().flatten().filter(|d| d.contains('\u{200C}') || d.contains('\u{200D}')).collect();
+        twins.sort();
+        for d in twins {
+            let twin: String = d.chars().map(|c| match c { '\u{200C}' => '\u{200D}', '\u{200D}' => '\u{200C}', c => c }).collect();
+            if let Some(sp) = find_spelling(&mut w0, &twin, 30_000) { if pr.typeable(&sp) { v.push(sp); } }
+        }
+        v.sort(); v.dedup();
+        v
+    };
+    let n_j = joiner_spellings.len() as u64 * 2;
+    let joiner_spellings = &joiner_spellings;
+    let total = n_a + n_a2 + n_b + n_j + if thorough { 1 } else { 0 };
     let typeable: Vec<char> = TYPEABLE.chars().collect();
     let pchars: Vec<char> = PUNCT.chars().collect();
     let (punct, words, typeable, pchars) = (&punct, &words, &typeable, &pchars);
@@ -89,6 +108,10 @@ pub fn c03(tier: &str, seed: u64, meta: &str) -> Report {
             let n = 1 + rng.below(mx);
             (String::new(), (0..n).map(|_| if rng.chance(1, 3) { *rng.pick(pchars) } else { *rng.pick(typeable) }).collect(), String::new())
             }
+        } else if i < n_a + n_a2 + n_b + n_j {
+            let k = (i - n_a - n_a2 - n_b) as usize;
+            let t = joiner_spellings[k / 2].clone();
+            (String::new(), if k % 2 == 0 { t } else { format!("({})?", t) }, String::new())
         } else {
             (String::new(), "a".repeat(if thorough { 4000 } else { 1400 }), ").".into())
         };
@@ -132,8 +155,33 @@ pub fn c03(tier: &str, seed: u64, meta: &str) -> Report {
             }
         }
     });
-    rep.extra.insert("rule".into(), json!(format!("suggestions off: {} words x ALL pairs of (empty or one of the 27 punctuation characters) leading/trailing (exhaustive), {} random words with up to 3 punctuation characters on each side, compared with okkhor called directly on the three parts; suggestions on: {} texts (three quarters strings over the 94 typeable characters, one quarter dictionary-dense stems + suffix keys typed key by key so that lists of twenty and more candidates occur) and one very long word, the transliteration (curled when smart quotes apply) must be a candidate; option sets sampled from all combinations; non-trivial = wrapped text / more than one candidate", words.len(), n_a2, n_b)));
+    rep.extra.insert("rule".into(), json!(format!("suggestions off: {} words x ALL pairs of (empty or one of the 27 punctuation characters) leading/trailing (exhaustive), {} random words with up to 3 punctuation characters on each side, compared with okkhor called directly on the three parts; suggestions on: {} texts (three quarters strings over the 94 typeable characters, one quarter dictionary-dense stems + suffix keys typed key by key so that lists of twenty and more candidates occur) every spelling among the auto-correct values whose transliteration holds a zero-width joiner, and for each of the dictionary words that hold a joiner a spelling (found by search over Avro letters) of its twin with the other joiner (bare and wrapped), and one very long word; the transliteration (curled when smart quotes apply) must be a candidate; option sets sampled from all combinations; non-trivial = wrapped text / more than one candidate", words.len(), n_a2, n_b)));
     rep
+}
+
+/// A phonetic spelling whose transliteration is `target`: depth-first search over Avro letters, pruned by
+/// "the transliteration of the prefix agrees with the target except for its last two characters".
+pub fn find_spelling(w: &mut Worker2, target: &str, max_nodes: usize) -> Option<String> {
+    let tc: Vec<char> = target.chars().collect();
+    let alphabet: Vec<char> = "abcdefghijklmnopqrstuvwxyzZTDNSROIU,".chars().collect();
+    let mut nodes = 0usize;
+    fn go(w: &mut Worker2, tc: &[char], alphabet: &[char], prefix: &mut String, nodes: &mut usize, max_nodes: usize) -> bool {
+        if *nodes >= max_nodes || prefix.len() > tc.len() * 3 + 4 { return false; }
+        *nodes += 1;
+        for &a in alphabet {
+            prefix.push(a);
+            let c: Vec<char> = w.oracle.conv(prefix).chars().collect();
+            if c == tc { return true; }
+            let common = c.iter().zip(tc.iter()).take_while(|(x, y)| x == y).count();
+            if c.len() <= tc.len() + 1 && common + 2 >= c.len() && common + 1 >= prefix.chars().count().min(c.len()) / 2 {
+                if go(w, tc, alphabet, prefix, nodes, max_nodes) { return true; }
+            }
+            prefix.pop();
+        }
+        false
+    }
+    let mut prefix = String::new();
+    if go(w, &tc, &alphabet, &mut prefix, &mut nodes, max_nodes) { Some(prefix) } else { None }
 }
 
 // ------------------------------------------------------------------------------------------------ C02
@@ -302,6 +350,7 @@ pub fn c05(tier: &str, seed: u64, meta: &str) -> Report {
         let mut other = if i % 2 == 0 { psession(w, bits, false, None, None, "c05o").ok() } else { None };
         // a pool with many repeats of stems so that prefixes, suffix forms and case variants meet in the memo
         let stems = ["ami", "desh", "sesh", "kotha", "bidyut", "rong", "form", "as", "koTha", "neT", "net", "jhal", "tst", "amra", "bhasha", "boi", "manush", "kori", "bol", "din"];
+        let mut cur_sels: Map = { let mut m = sels.clone(); m.sort(); m };
         // a quarter of the workers re-configure the warm context twice with a different database directory
         // (same layout, same options): the tables of a context are those it loaded when it was built, and the
         // memo must stay a function of them; the brand-new contexts go through the same re-configurations
@@ -333,7 +382,16 @@ pub fn c05(tier: &str, seed: u64, meta: &str) -> Report {
             let path = edit_path(pr, &mut rng, &t, sel);
             let ws = feed(w, &mut warm, &path, rep, "C05");
             let wlast = ws.last().unwrap().imp.clone();
-            feed(w, &mut warm, &[SEv::Finish], rep, "C05");
+            // the learned selections in force while this text was composed
+            let sels_now: Map = cur_sels.clone();
+            // a bare stem every other time, another text one time in ten, is ended by choosing another candidate (the store learns it; brand-new contexts
+            // are created over the store the commits have taught so far)
+            let choose = if (if stems.contains(&t.as_str()) { rng.chance(1, 2) } else { rng.chance(1, 10) }) { last_full(&ws).and_then(|(_, l, s)| if l.len() > 1 { Some((s + 1 + rng.below(l.len() - 1)) % l.len()) } else { None }) } else { None };
+            match choose {
+                Some(c) => { feed(w, &mut warm, &[SEv::Commit(c)], rep, "C05"); if let Some(m) = warm.model_sels(w) { cur_sels = m; } }
+                None => { feed(w, &mut warm, &[SEv::Finish], rep, "C05"); }
+            }
+            let sels = &sels_now;
             if warm.history.len() > 60_000 { warm.history.drain(..30_000); }
             if other_first && rng.chance(1, 6) {
                 // the same text typed by a context that is alone in its thread
@@ -366,7 +424,7 @@ pub fn c05(tier: &str, seed: u64, meta: &str) -> Report {
             }
         }
     });
-    rep.extra.insert("rule".into(), json!(format!("16 warm contexts (learned selections and a user auto-correct list present) compose {} words each (stems x all 737 suffixes, case variants, auto-correct keys, numbers, wrapped words, random strings) through random edit paths (detours removed by backspace); a third of them (and every long one) is re-typed directly in a brand-new context and the two renderings (candidates, order, preselection) must be identical; half of the workers also run a second context without database in the same thread; a quarter of the warm contexts are re-configured twice (update_engine with the database directory switched off, later on again; the brand-new contexts get the same re-configurations before typing); every event is also compared with the extracted model; non-trivial = at least two candidates", per)));
+    rep.extra.insert("rule".into(), json!(format!("16 warm contexts (learned selections and a user auto-correct list present) compose {} words each (stems x all 737 suffixes, case variants, auto-correct keys, numbers, wrapped words, random strings) through random edit paths (detours removed by backspace); a third of them (and every long one) is re-typed directly in a brand-new context and the two renderings (candidates, order, preselection) must be identical; half of the workers also run a second context without database in the same thread; every other bare stem and a tenth of the other texts are ended by committing a candidate other than the preselected one (the brand-new contexts are created over the selections learned so far, so a read path that plants entries in the store shows); a quarter of the warm contexts are re-configured twice (update_engine with the database directory switched off, later on again; the brand-new contexts get the same re-configurations before typing); every event is also compared with the extracted model; non-trivial = at least two candidates", per)));
     rep
 }
 
@@ -516,6 +574,10 @@ pub fn c08(tier: &str, seed: u64, meta: &str) -> Report {
         let (w, sess) = st;
         let base = &bases[(i / ns) as usize];
         let suf_key = &pr.suffix_keys[(i % ns) as usize];
+        // one case in seven types the suffix with its first letter in upper case: in the Avro scheme that is another
+        // letter, the remainder is then (usually) no suffix key and nothing may be derived from the suffix table
+        let upper: String = { let mut cs: Vec<char> = suf_key.chars().collect(); cs[0] = cs[0].to_ascii_uppercase(); cs.into_iter().collect() };
+        let suf_key = if i % 7 == 3 && upper != *suf_key { &upper } else { suf_key };
         let wrapped = i % 5 == 0;
         if sess.is_none() { *sess = psession(w, 2, true, None, None, "c08").ok(); }
         let s = match sess.as_mut() { Some(s) => s, None => return };
@@ -533,13 +595,14 @@ pub fn c08(tier: &str, seed: u64, meta: &str) -> Report {
         let full_list = last_full(if r.is_empty() { &s2 } else { &s3 }).map(|x| x.1).unwrap_or_default();
         feed(w, s, &[SEv::Finish], rep, "C08");
         rep.evaluations += 1;
-        let suf_bn = match w.oracle.suffix(suf_key) { Some(x) => x.clone(), None => return };
+        let suf_known = w.oracle.suffix(suf_key).cloned();
+        let suf_bn = suf_known.clone().unwrap_or_default();
         let (pre, tr) = (w.oracle.conv(l), w.oracle.conv(r));
         let strip = |c: &String| c.strip_prefix(pre.as_str()).and_then(|x| x.strip_suffix(tr.as_str())).map(str::to_string);
         let info = |what: &str, extra: Value| json!({"what": what, "base": base, "suffix_key": suf_key, "suffix": suf_bn, "typed": format!("{}{}{}", l, full, r),
             "base_candidates": base_list, "candidates": full_list, "details": extra});
         // completeness: every direct candidate offered for the base alone is offered in joined form
-        if full.len() > 2 {
+        if full.len() > 2 && suf_known.is_some() {
             let (ac, hits) = direct_of(w, &vec![], base);
             let base_l = if wrapped { format!("{}{}", l, base) } else { base.clone() };
             let _ = base_l;
@@ -575,7 +638,7 @@ pub fn c08(tier: &str, seed: u64, meta: &str) -> Report {
         }
         if rep.samples.len() < 2 && i % 733 == 0 { rep.sample(info("sample", json!(null))); }
     });
-    rep.extra.insert("rule".into(), json!(format!("{} base words (candidates ending in khanda-ta, anusvara, a vowel, a consonant; an auto-correct key; multi-candidate words) x ALL {} suffix keys of suffix.json (exhaustive over the suffix table), a fifth of them wrapped in punctuation; base and base+suffix are typed in the same context; completeness and soundness are judged with okkhor's pattern over ALL dictionary tables, suffix.json and autocorrect.json read independently; non-trivial = the base has direct candidates", bases.len(), ns)));
+    rep.extra.insert("rule".into(), json!(format!("{} base words (candidates ending in khanda-ta, anusvara, a vowel, a consonant; an auto-correct key; multi-candidate words) x ALL {} suffix keys of suffix.json (exhaustive over the suffix table), a fifth of them wrapped in punctuation, a seventh with the suffix's first letter in upper case (another Avro letter: soundness only); base and base+suffix are typed in the same context; completeness and soundness are judged with okkhor's pattern over ALL dictionary tables, suffix.json and autocorrect.json read independently; non-trivial = the base has direct candidates", bases.len(), ns)));
     rep.extra.insert("exhaustive".into(), json!(true));
     // which final characters of direct base candidates (the selector of the joining rule) were exercised
     let mut w = Worker2::new(pr.data.clone());
@@ -612,11 +675,49 @@ pub fn c09(tier: &str, seed: u64, meta: &str) -> Report {
     by_len.sort_by_key(|s| std::cmp::Reverse(s.len()));
     let by_len = &by_len;
     let words = ["sesh", "ami", "desh", "kotha", "bhasha", "form", "as", "bidyut", "rong", "ma", "tumi", "manush", "boi", "din", "kaj", "shob", "mon", "jol", "hat", "gan"];
+    // pairs of suffix keys (c s', s') with one more letter in front: a text b + c s' is also (b c) + s'
+    let keyset: HashSet<&str> = p.suffix_keys.iter().map(|s| s.as_str()).collect();
+    let pairs: Vec<(String, String, String)> = p.suffix_keys.iter().filter(|k| k.len() >= 2 && k.is_char_boundary(1) && keyset.contains(&k[1..]) && k.as_bytes()[0].is_ascii_lowercase())
+        .map(|k| (k.clone(), k[..1].to_string(), k[1..].to_string())).collect();
+    let pairs = &pairs;
     let mut rep = par_items(total, |_| Worker2::new(pr.data.clone()), |w, i, rep| {
         let mut rng = Rng::new(seed ^ i.wrapping_mul(0xC09));
         let smart = rng.below(2) as u32;
         let bits = 2 | (smart << 3) | (rng.below(2) as u32);
         let mut s = match psession(w, bits, true, None, None, "c09") { Ok(s) => s, Err(e) => { rep.diff(json!({"what": "context creation failed", "error": e})); return; } };
+        if i % 6 == 5 && !pairs.is_empty() {
+            // two learned bases fit the same text: b + (c s') and (b c) + s' - the longer learned base decides
+            let b = words[rng.below(words.len())];
+            let (sfx, c, sfx2) = rng.pick(pairs).clone();
+            let b2 = format!("{}{}", b, c);
+            let st = feed_frontend(w, &mut s, pr, b, rep, "C09");
+            let (_, l1, s1) = match last_full(&st) { Some(x) => x, None => return };
+            if l1.len() < 2 { feed(w, &mut s, &[SEv::Finish], rep, "C09"); return; }
+            feed(w, &mut s, &[SEv::Commit((s1 + 1) % l1.len())], rep, "C09");
+            let st = feed_frontend(w, &mut s, pr, &b2, rep, "C09");
+            let (_, l2, s2) = match last_full(&st) { Some(x) => x, None => return };
+            if l2.len() < 2 { feed(w, &mut s, &[SEv::Finish], rep, "C09"); return; }
+            let c2 = { let mut k = rng.below(l2.len()); if k == s2 { k = (k + 1) % l2.len(); } k };
+            if l2[c2] == b2 { feed(w, &mut s, &[SEv::Finish], rep, "C09"); return; } // the raw English text: no Bengali core to join
+            let learned2 = l2[c2].clone();
+            feed(w, &mut s, &[SEv::Commit(c2)], rep, "C09");
+            if rng.chance(1, 2) { feed(w, &mut s, &[SEv::Restart], rep, "C09"); }
+            let full = format!("{}{}", b2, sfx2);
+            debug_assert_eq!(full, format!("{}{}", b, sfx));
+            let st = feed_frontend(w, &mut s, pr, &full, rep, "C09");
+            rep.evaluations += 1;
+            if let Some((_, l3, s3)) = last_full(&st) {
+                let want = join_rule(&learned2, &w.oracle.suffix(&sfx2).cloned().unwrap_or_default());
+                if l3.contains(&want) && l3.get(s3) != Some(&want) {
+                    rep.fail(json!({"what": "two learned words fit a text as base + known suffix: the joined candidate of the longer learned word is offered but not preselected",
+                        "shorter_base": b, "longer_base": b2, "learned_for_longer_base": learned2, "typed": full, "suffix_after_longer_base": sfx2, "expected_preselected": want,
+                        "candidates": l3, "preselected_index": s3, "option_bits": bits, "session": s.describe()}));
+                }
+                if l3.contains(&want) { rep.nontrivial_key(&format!("two {} {}", b2, sfx2)); }
+            }
+            feed(w, &mut s, &[SEv::Finish], rep, "C09");
+            return;
+        }
         let word = words[(i as usize) % words.len()];
         let wrappers: [(&str, &str); 8] = [("", ""), ("\"", "\""), ("'", "'"), ("(", ")"), ("", "."), ("", ",,"), ("[", "]?"), ("", "")];
         let (l, r) = wrappers[rng.below(8)];
